@@ -14,7 +14,8 @@ static const char *changes[] = {
 #define NCH ((int) (sizeof(changes) / sizeof(changes[0])))
 static const char *follow[] = {"x", "p", "."};
 static const char *macros[] = {"dw", "x2l", "ihi" ESC, "ddp", "A!" ESC "0", "jdd", "3x", "rQl", "\"ayyj",
-	"A \xc3\xa9\xc3\xa8\xcf\x80x" ESC "0", "r\xc3\xa9l"};	/* registers holding multi-byte text */
+	"A \xc3\xa9\xc3\xa8\xcf\x80x" ESC "0", "r\xc3\xa9l",	/* registers holding multi-byte text */
+	"x.", "dw..", "xj."};		/* macros that push keys themselves (nested pushes) */
 #define NMAC ((int) (sizeof(macros) / sizeof(macros[0])))
 
 static const struct { const char *name, *bytes; } pre[] = {
